@@ -280,7 +280,10 @@ use work.pk.all;
 
 entity en is
   generic (g : natural := 1);
-  port (i : in bit; o : out bit);
+  port (
+    i : in bit;
+    o : out bit;
+    n : in natural := 0);
 end entity;
 
 architecture ar of en is
@@ -291,6 +294,7 @@ architecture ar of en is
   constant ux : bit_vector(3 downto 0) := 4X"1";
 begin
   u0 : entity work.en generic map (g => 0) port map (i => i, o => open);
+  u1 : entity work.en generic map (0) port map (i, open, 3);
   pr : process (i)
   begin
     case s is
